@@ -458,6 +458,7 @@ fn process(req: &J) -> J {
         let m = state.borrow();
         ro.set("steps", J::Int(m.steps as i64));
         ro.set("budget_exhausted", J::Bool(m.budget_exhausted));
+        ro.set("wall_exhausted", J::Bool(m.wall_exhausted));
         let mut mo = J::obj();
         if m.want_hist {
             let mut h = J::obj();
